@@ -709,11 +709,54 @@ def special_sources(ext, families=True, thin=None):
         yield s
     for s in compat_sources(ext, thin):
         yield s
+    for s in fold_sources(thin):
+        yield s
     for a in INTS + FLOATS + STRINGS:
         yield "{{ " + a + " }}"
         yield "{{ x." + a + " }}"
         yield "{% set x = " + a + " %}{{ x|default(" + a + ") }}{% if " + a + " %}{% endif %}"
         yield "{{ {" + a + ": " + a + "}[" + a + "] }}"
+
+
+# ---------------------------------------------------------------------------------------------------------------
+# work done while LOADING: the optimizer folds filters and tests applied to constants, so every registered filter and
+# test runs at load time on whatever constant the source spells (infinite / NaN floats, huge and negative ints, empty
+# and odd containers).  Loading must finish and fail only with a template syntax error whatever the filter does there.
+# ---------------------------------------------------------------------------------------------------------------
+
+FOLD_RECEIVERS = ["1e999", "-1e999", "(1e999 - 1e999)", "'inf'", "'-Infinity'", "'nan'", "0", "-1", "1", "1.5", "-0.0",
+                  "2 ** 64", "10 ** 400", "-(10 ** 400)", "1e308", "''", "' '", "'a b'", "'%s'", "'{}'", "'{0}{1}'", "'<a>'",
+                  "'\n\n'", "'http://x'", "[]", "[1, 2]", "[[]]", "['a', 1]", "[1e999]", "{}", "{'a': 1}", "{1: {}}", "()",
+                  "(1,)", "none", "true", "false"]
+FOLD_ARGS = ["", "()", "(0)", "(1)", "(-1)", "(2, 3)", "(true)", "(none)", "('a')", "('')", "(1e999)", "(-1e999)", "(1.5)",
+             "([])", "({})", "('a', 'b')", "(0, 0, 0)", "(binary=true)", "(attribute='a')", "(default=1e999)"]
+
+
+def fold_sources(thin=None):
+    from jinja2.defaults import DEFAULT_FILTERS, DEFAULT_TESTS
+
+    k = 0
+
+    def skip(k):      # quick tier: every 8th combination, rotated by seed
+        return bool(thin) and (k + thin[1]) % (2 * thin[0]) != 0
+
+    for name in sorted(DEFAULT_FILTERS):
+        for r in FOLD_RECEIVERS:
+            for a in FOLD_ARGS:
+                k += 1
+                if skip(k):
+                    continue
+                yield "{{ " + r + "|" + name + a + " }}"
+            k += 1
+            if not skip(k):
+                yield "{% if false %}{{ (" + r + ")|" + name + "|" + name + " }}{% endif %}{% set v = " + r + "|" + name + " %}"
+    for name in sorted(DEFAULT_TESTS):
+        for r in FOLD_RECEIVERS:
+            for a in FOLD_ARGS[:14]:
+                k += 1
+                if skip(k):
+                    continue
+                yield "{{ " + r + " is " + name + a + " }}"
 
 
 # ---------------------------------------------------------------------------------------------------------------
